@@ -245,6 +245,12 @@ func runC13(c *fw.Ctx) {
 			}
 		}
 		c.Add("aliased_input_triples", n64)
+		for n := 0; n <= 3; n++ {
+			c13check(c, nil, nil, n)
+			c13check(c, nil, []string{"a", "b"}, n)
+			c13check(c, []string{"a"}, nil, n)
+			n64 += 3
+		}
 		for _, n := range []int{math.MaxInt, math.MaxInt - 1, 1 << 40, 1 << 31, 1000} {
 			for li := 0; li < 40; li++ {
 				left := linesOf(seqOfN(li*7+c.Block, 3))
@@ -258,7 +264,7 @@ func runC13(c *fw.Ctx) {
 		c.Add("triples", n64)
 		c.SeenEnum(n64)
 	}
-	nr := c.Pick(4000, 60000)
+	nr := c.Pick(4000, 400000)
 	for k := 0; k < nr; k++ {
 		if !c.Begin(idx + k) {
 			continue
